@@ -309,7 +309,63 @@ func (o *c16) End(x *hctx) string {
 			os.RemoveAll(d)
 		}
 	}
+	// one damaged tape per case: a later record that no reader accepts (an unsupported
+	// STFS.Version, or one flipped byte in its PAX data). Opening it without an index must
+	// leave it as it is, and may only show what a from-scratch rebuild of it shows.
+	if dmg, what, ok := c16Damage(raw, x.cfg.RecordSize); ok && onlyState == "" {
+		n++
+		d := filepath.Join(side, fmt.Sprintf("p%d", n))
+		_ = os.MkdirAll(filepath.Join(d, "drv"), 0700)
+		drv, db := filepath.Join(d, "drv", "drive.tar"), filepath.Join(d, "index.sqlite")
+		_ = os.WriteFile(drv, dmg, 0600)
+		ref, _ := rebuildCut(x.f, x.cfg, side, dmg, int64(len(dmg)), "ref-damaged")
+		var w *world.World
+		var err error
+		checkObs(x.f, hist.Call("Initialize over a damaged tape", func() { w, err = world.New(x.cfg, world.Opts{Dir: d, Drive: drv, DB: db}) }), "Initialize over a tape with "+what)
+		if err != nil {
+			return fmt.Sprintf("tape with %s: cannot construct: %v", what, err)
+		}
+		after, _ := os.ReadFile(drv)
+		if !bytes.Equal(after, dmg) {
+			w.Close()
+			return fmt.Sprintf("tape of %d bytes with %s, index absent: opening changed the tape (%d bytes afterwards, Initialize err=%v)", len(dmg), what, len(after), w.InitErr)
+		}
+		if w.InitErr == nil {
+			got, e := observe.Snapshot(hist.Call, w.FS, true)
+			checkObs(x.f, e, "snapshot after opening a damaged tape")
+			if dd := observe.Diff("from-scratch-rebuild", ref, "opened-instance", got, true); dd != "" {
+				w.Close()
+				return fmt.Sprintf("tape with %s: Initialize succeeded but the filesystem is not what a rebuild of that tape shows:\n%s", what, dd)
+			}
+		}
+		w.Close()
+		os.RemoveAll(d)
+		o.points++
+		live.S.AddInner(1)
+		live.S.Class("open:damaged-record/absent")
+	}
 	return ""
+}
+
+// c16Damage makes one record behind the first unacceptable: STFS.Version=1 becomes 2 where it
+// is readable, otherwise one byte of the record's PAX data is flipped.
+func c16Damage(raw []byte, rs int) ([]byte, string, bool) {
+	sc := observe.TapeScan(raw, rs, false)
+	if len(sc.Members) < 3 {
+		return nil, "", false
+	}
+	m := sc.Members[len(sc.Members)/2]
+	lo, hi := m.Off+512, m.DataOff-512
+	if hi <= lo || hi > int64(len(raw)) {
+		return nil, "", false
+	}
+	out := append([]byte(nil), raw...)
+	if i := bytes.Index(out[lo:hi], []byte("STFS.Version=1")); i >= 0 {
+		out[lo+int64(i)+int64(len("STFS.Version="))] = '2'
+		return out, "a record of an unsupported STFS.Version", true
+	}
+	out[lo+(hi-lo)/2] ^= 0x01
+	return out, "one flipped bit in the PAX data of a record", true
 }
 
 // c16PopulatedDir picks a directory of the reference tree that has entries below it and
